@@ -133,6 +133,18 @@ CHECKS["C12"] = dict(
          "matcher in vf/chk/c12.py; pending responses are retried before every scheduling step (models the simulators' retry loop).",
     design="3/C12")
 
+CHECKS["C13"] = dict(
+    engine="symx",
+    technique="exploration of controller histories by explorer choice points on the real Executor + inductive step from every invariant-satisfying state; data as z3 terms",
+    text="(a) every history of 4 (thorough 5) operations over 2 (3) applications -- init, stop, qalloc/qfree, classical write and return, "
+         "keep response for a free virtual qubit, faulting subroutines included -- with injectivity of the virtual->physical map across "
+         "applications, in-use set = mapped set, other applications' registers/arrays/shared memory/unit module unchanged (compared as z3 "
+         "terms, written values symbolic), stop releasing everything and re-registration, checked after every operation; (b) the same "
+         "obligations for one operation from each of ~330 invariant-satisfying states, which extends (a) to histories of any length.",
+    note="Mostly exhaustive enumeration by forking (stated); the solver compares symbolic memory contents. Trusted: harness NetExecutor. "
+         "Physical ids offered by the link layer are assumed unused (contract).",
+    design="3/C13")
+
 NOT_YET = "check not built yet in this revision (work in progress; see DESIGN.md section 3 for the planned solver-based check)"
 NOT_APPLICABLE = {}
 
